@@ -177,6 +177,11 @@ func runC18(cfg *config, res *monitor.Result) {
 					break
 				}
 				opts := []csproto.JSONOption{csproto.JSONIndent(indent), csproto.JSONUseEnumNumbers(enumNums), csproto.JSONIncludeZeroValues(emitZero)}
+				if (oi+ci)%2 == 1 {
+					// a shared option list: the options of the unmarshaling side (set to the opposite values) have no
+					// documented effect on marshaling
+					opts = append(opts, csproto.JSONAllowUnknownFields(!enumNums), csproto.JSONAllowPartialMessages(!emitZero))
+				}
 				var out []byte
 				var merr error
 				evals++
@@ -255,7 +260,12 @@ func runC18(cfg *config, res *monitor.Result) {
 					for _, allow := range []bool{false, true} {
 						evals++
 						b3 := t.pkg.New(t.md.FullName())
-						err := csproto.JSONUnmarshaler(b3, csproto.JSONAllowUnknownFields(allow)).UnmarshalJSON(withUnknown)
+						uopts := []csproto.JSONOption{csproto.JSONAllowUnknownFields(allow)}
+						if ci%2 == 0 {
+							// ... and the options of the marshaling side have none on unmarshaling
+							uopts = append(uopts, csproto.JSONUseEnumNumbers(!allow), csproto.JSONIncludeZeroValues(!allow), csproto.JSONIndent(" "))
+						}
+						err := csproto.JSONUnmarshaler(b3, uopts...).UnmarshalJSON(withUnknown)
 						if (err == nil) != allow {
 							viol(fmt.Sprintf("unknown-keys:allow=%v", allow), fmt.Sprintf("JSON with an unknown key: err=%v with allowUnknownFields=%v", err, allow), map[string]any{"json": string(clipJSON(withUnknown))})
 						} else if allow && !sameAs(b3) {
@@ -279,7 +289,11 @@ func runC18(cfg *config, res *monitor.Result) {
 							obj[fd.JSONName()] = saved
 							for _, allow := range []bool{false, true} {
 								evals++
-								err := csproto.JSONUnmarshaler(t.pkg.New(t.md.FullName()), csproto.JSONAllowPartialMessages(allow)).UnmarshalJSON(partial)
+								popts := []csproto.JSONOption{csproto.JSONAllowPartialMessages(allow)}
+								if ci%2 == 1 {
+									popts = append(popts, csproto.JSONIncludeZeroValues(!allow), csproto.JSONUseEnumNumbers(!allow))
+								}
+								err := csproto.JSONUnmarshaler(t.pkg.New(t.md.FullName()), popts...).UnmarshalJSON(partial)
 								if (err == nil) != allow {
 									viol(fmt.Sprintf("missing-required:allow=%v", allow), fmt.Sprintf("JSON lacking required field %s: err=%v with allowPartial=%v", fd.Name(), err, allow), nil)
 								}
